@@ -119,7 +119,7 @@ strings = {
 }
 patterns = {
     "^a": "^a", "b$": "b$", "a.c": "a.c", "^[ab]+$": "^[ab]+$", "b": "b",
-    "^$": "^$", "U_e1": "é", "^.$": "^.$", "^..$": "^..$",
+    "^$": "^$", "U_e1": "é", "^.$": "^.$", "^..$": "^..$", "^": "^",
 }
 match = {}
 for pid, p in patterns.items():
